@@ -27,6 +27,11 @@ class Res:
         self.label = label
 
 
+class Late:
+    def __init__(self, label: str) -> None:
+        self.label = label
+
+
 def valid(action: str, body: str) -> bool:
     if body == "crash-oc":
         return action == "cancel"
@@ -121,6 +126,17 @@ class C08(E1Check):
                 ctx = current_context()
                 snap = sorted(v.label for v in ctx.get_resources(Res).values())
                 log("svc+", label, tuple(snap), tuple(st["owner_res"]))
+                # a factory registered by the task in ITS context (must stay there), and one the owner registers later (must not reach
+                # the task: its context is a snapshot)
+                ctx.add_resource_factory(lambda: Late("svc-own"), "svcown" + label, types=Late)
+
+                def late_probe(when: str) -> None:
+                    try:
+                        v = ctx.get_resource_nowait(Late, "late", optional=True)
+                    except BaseException as e:  # noqa: BLE001
+                        v = e
+                    if v is not None:
+                        log("svc-late-visible", label, when)
 
                 async def own_td() -> None:
                     # the task's own context needs time to tear down (one gate) unless it is being cancelled
@@ -166,6 +182,7 @@ class C08(E1Check):
                     snap2 = sorted(v.label for v in ctx.get_resources(Res).values())
                     if snap2 != snap:
                         log("svc-snapshot-changed", label, tuple(snap2))
+                    late_probe("end")
                 except BaseException as e:
                     log("svc!", label, type(e).__name__)
                     raise
@@ -292,6 +309,16 @@ class C08(E1Check):
                         else:
                             await ctx.start_service_task(service, "svc" + lbl, teardown_action=ta)
                         log("reg", lbl, "S")
+                # registered after every task was started: invisible to the tasks; and nothing the tasks registered is visible here
+                ctx.add_resource_factory(lambda: Late("late"), "late", types=Late)
+                for i2, item2 in enumerate(seq):
+                    if item2.startswith("S:"):
+                        try:
+                            leaked = ctx.get_resource_nowait(Late, "svcown" + str(i2), optional=True)
+                        except BaseException as e:  # noqa: BLE001
+                            leaked = e
+                        if leaked is not None:
+                            log("svc-factory-leaked", str(i2))
                 await env.gate("leave")
                 log("leaving")
             log("owner-left")
@@ -400,6 +427,10 @@ class C08(E1Check):
                 fail("snapshot", f"service task {lbl} saw resources {sp[2]}, the owner had {sp[3]} when it was started")
             if any(ev[0] == "svc-snapshot-changed" and ev[1] == lbl for ev in tr):
                 fail("snapshot", f"service task {lbl} saw resources added to the owner after it had been started")
+            if any(ev[0] == "svc-late-visible" and ev[1] == lbl for ev in tr):
+                fail("snapshot", f"service task {lbl} can use a resource factory that was added to the owner after the task had been started")
+            if any(ev[0] == "svc-factory-leaked" and ev[1] == lbl for ev in tr):
+                fail("snapshot", f"a resource factory registered by service task {lbl} in its own context is usable from the owning context")
             end = next((j for j, ev in enumerate(tr) if ev[0] == "svc-" and ev[1] == lbl), None)
             tdx = next((j for j, ev in enumerate(tr) if ev[0] == "svc-td" and ev[1] == lbl), None)
             if body in ("crash0", "crash-oc"):
